@@ -363,6 +363,8 @@ def compositions(total):
 def gen_C18(rng, count, tier):
     # over real sockets: the application writes the next piece from inside bytesWritten(); every body byte is announced
     yield ("tls", "plain chain")
+    # ... and with more than 2^31 body bytes in all (about ten seconds under the sanitizers)
+    yield ("tls", "plain chainbig")
     n = 0
     # exhaustive part: tiny header block (status line only, 19 bytes) is impossible to shrink below,
     # so enumerate acknowledgement patterns around the header/body edge for a fixed small response
